@@ -695,10 +695,15 @@ def job_history(cfgname, seq, tier):
             g2 = []
             for k in keys:
                 if k in fs and k in f2 and not isinstance(fs[k], (int, str)):
-                    g2.append(core.eq(fs[k], f2[k]))
+                    g2.append((k, core.eq(fs[k], f2[k])))
                 elif k in fs and k in f2 and fs[k] != f2[k]:
-                    g2.append(z3.BoolVal(False))
-            out.append(prove(f"{hid}/state==fresh_model", p.conds, z3.And(g2), T, witness_vars=wvars, replay=rb))
+                    g2.append((k, z3.BoolVal(False)))
+            if cfg["cls"].startswith("TPL"):
+                # (non-linear var_factor terms: entry by entry instead of one conjunction)
+                for k, g_ in g2:
+                    out.append(prove(f"{hid}/state[{k}]==fresh_model", p.conds, g_, T, witness_vars=wvars, replay=rb))
+            else:
+                out.append(prove(f"{hid}/state==fresh_model", p.conds, z3.And([g_ for _k, g_ in g2]), T, witness_vars=wvars, replay=rb))
     if n_ok == 0:
         out.append(rec(f"{hid}/reachability", "vacuous", detail="no accepting path"))
     return out, {"history": hid, "paths": len(paths), "accepting": n_ok}
